@@ -20,6 +20,26 @@ def make(kind, p):
     raise KeyError(kind)
 
 
+_CRIT = {}
+
+
+def _crit(alpha):
+    """the smallest T (to double precision) for which 1 - Phi(T) < alpha"""
+    if alpha not in _CRIT:
+        lo, hi = -40.0, 40.0                      # 1 - Phi(-40) = 1 >= alpha,  1 - Phi(40) = 0 < alpha  (for any alpha in (0, 1])
+        if not (1 - scipy.stats.norm.cdf(hi) < alpha):
+            _CRIT[alpha] = float("inf")
+        else:
+            for _ in range(200):
+                mid = (lo + hi) / 2
+                if 1 - scipy.stats.norm.cdf(mid) < alpha:
+                    hi = mid
+                else:
+                    lo = mid
+            _CRIT[alpha] = (lo + hi) / 2
+    return _CRIT[alpha]
+
+
 def spec_cfg(kind, p):
     """constructor parameters -> the cfg record of the TLA+ module"""
     if kind == "DDM":
@@ -27,9 +47,9 @@ def spec_cfg(kind, p):
     if kind == "EDDM":
         return {"nthr": int(p["n_threshold"]), "wt": num(p["warning_thresh"]), "dt": num(p["drift_thresh"])}
     if kind == "STEPD":
-        # trusted table: standard normal quantiles (scipy)
-        return {"w": int(p["window_size"]), "zw": num(scipy.stats.norm.ppf(1 - p["alpha_warning"])),
-                "zd": num(scipy.stats.norm.ppf(1 - p["alpha_drift"]))}
+        # trusted table: the critical value of the one-sided test "p-value = 1 - Phi(T) below alpha" (scipy's normal distribution
+        # function, inverted by bisection in double precision so that levels near and below machine epsilon are exact as well)
+        return {"w": int(p["window_size"]), "zw": num(_crit(p["alpha_warning"])), "zd": num(_crit(p["alpha_drift"]))}
     raise KeyError(kind)
 
 
@@ -127,6 +147,8 @@ def random_params(kind, rng):
                 "warning_thresh": rng.choice([1.0, min(0.999, d + rng.choice([0.03, 0.05, 0.05, 0.09, -0.1]))]) if rng.random() < 0.15 else min(0.999, d + rng.choice([0.03, 0.05, 0.05, 0.09, -0.1]))}
     if kind == "STEPD":
         d = rng.choice([0.001, 0.003, 0.003, 0.01, 0.05])
+        if rng.random() < 0.12:      # a drift level at / below machine epsilon: the p-value must be exactly 0 (T beyond ~8.3)
+            return {"window_size": rng.choice([10, 30]), "alpha_drift": rng.choice([1e-17, 1e-15, 1e-12]), "alpha_warning": rng.choice([0.05, 1e-6])}
         if rng.random() < 0.2:      # significance levels above one half are legal: then every decrease of accuracy alarms, and ONLY a decrease
             return {"window_size": rng.choice([5, 10, 30]), "alpha_drift": rng.choice([0.05, 0.52, 0.6]), "alpha_warning": rng.choice([0.55, 0.65, 0.7])}
         return {"window_size": rng.choice([1, 5, 10, 30, 30]), "alpha_drift": d,
